@@ -126,6 +126,25 @@ Theorem C02_flat_closed_replace_succeeds_iff_valid : forall s doc from to sl rf 
 Proof. exact flat_closed_replace. Qed.
 Print Assumptions C02_flat_closed_replace_succeeds_iff_valid.
 
+(* ... and deleting a range inside one parent node.  [remaining]: the parent's children before the range, the part of a
+   text node in front of `from` (ResolvedPos.node_before), the part of a text node behind `to` (node_after), the children
+   after the range - appended one by one, equally-marked adjacent text merged (what replace_two_way builds).  Node.replace
+   with the empty slice returns a document exactly when that child sequence is valid content for the parent's type;
+   otherwise it raises ReplaceError and nothing else.  (That node_before / node_after succeed says the positions do not
+   split a surrogate pair.) *)
+Theorem C02_flat_delete_succeeds_iff_valid : forall s doc from to rf rt parent i j nb na,
+  (exists ty at_ m cs, doc = Elem ty at_ m cs) ->
+  resolve s doc from = Ok rf -> resolve s doc to = Ok rt -> from <= to ->
+  rp_depth rf = rp_depth rt -> (forall d, d < rp_depth rf -> rp_index rf d = rp_index rt d) ->
+  rp_parent rf = Ok parent ->
+  rp_index rf (rp_depth rf) = Ok i -> rp_index rt (rp_depth rf) = Ok j ->
+  rp_node_before s rf = Ok nb -> rp_node_after s rt = Ok na ->
+  ((exists d', node_replace s doc from to (SL [] 0 0) = Ok d') <->
+   valid_content s (node_ty s parent) (remaining parent rf rt i j nb na) = true) /\
+  (forall e, node_replace s doc from to (SL [] 0 0) = Err e -> e = ErrReplace).
+Proof. exact flat_delete. Qed.
+Print Assumptions C02_flat_delete_succeeds_iff_valid.
+
 (* the hypotheses are met: typing "x" between "a" and "b" in the first paragraph of the example document *)
 Example C02_flat_replace_example :
   let s := Properties.C01.ex_schema in let doc := Properties.C01.ex_doc in
